@@ -259,6 +259,29 @@ def run(ctx):
         keyf = prog.resolve_callable(sbu, kwarg(srt[0], "key"))
         ok = keyf is not None and any(call_name(c) == "connected" for c in calls_in(keyf))
         ok = ok and cu.dominates([cu.containing(srt[0])[0].id], lp[0].id)
+    elif ids and not srt:
+        # partition form: every id goes to exactly one of two lists, by a test on its client's connected(); the attempt
+        # loop runs over <connected list> + <other list>
+        idv = unparse(ids[0].targets[0])
+        for ploop in [n for n in cu.nodes if n.kind == "for" and norm(n.stmt.iter) == idv]:
+            pv_ = unparse(ploop.stmt.target)
+            pbody = cu.reach([t for t, lab in cu.succ[ploop.id] if lab == ("iter", True)], avoid=[ploop.id], include_src=True)
+            apps_ = [(cu.nodes[i], c) for i in sorted(pbody) for c in cu.nodes[i].calls() if call_name(c) == "append" and c.args and norm(c.args[0]) == pv_
+                     and isinstance(c.func.value, ast.Name)]
+            tests_ = [cu.nodes[i] for i in pbody if cu.nodes[i].kind == "test" and any(call_name(c) == "connected" for c in cu.nodes[i].calls())]
+            if len(apps_) != 2 or len(tests_) != 1:
+                continue
+            arms = {}
+            for n_, c_ in apps_:
+                for t_, lab in cu.control_deps(n_.id):
+                    if t_ is tests_[0] or t_.id == tests_[0].id:
+                        arms[lab[2] if lab and lab[0] == "cond" else None] = c_.func.value.id
+            exhaustive = ploop.id not in cu.reach([t for t, lab in cu.succ[ploop.id] if lab == ("iter", True)], avoid=[n_.id for n_, _c in apps_] + [ploop.id]) and \
+                [t for t, lab in cu.succ[ploop.id] if lab == ("iter", True)][0] not in (ploop.id,)
+            if set(arms) == {True, False} and exhaustive:
+                want = "%s + %s" % (arms[True], arms[False])
+                lp = [n for n in cu.nodes if n.kind == "for" and norm(n.stmt.iter) == want and ploop.id not in cu.reach([n.id]) and n.id in cu.reach([ploop.id])]
+                ok = len(lp) == 1
     r.check(ok, "%s#all-known-connected-first" % sbu.qname, "known brokers are not all tried, connected ones first",
             where(sbu, sbu.node), "a reachable known broker is skipped; idle brokers dialled before connected ones")
     exc = [n for n in cu.nodes if n.kind == "except"]
@@ -327,7 +350,21 @@ def run(ctx):
     ok = len(hl) == 1 and bool(hv) and norm(hl[0].stmt.iter) == unparse(hv[0].targets[0]) and len(rz) == 1
     if ok:
         hbody = cb.reach([hl[0].id], avoid=[t for t, lab in cb.succ[hl[0].id] if lab == ("iter", False)])
-        ok = rz[0].id not in hbody and all(hl[0].id in cb.reach([e.id]) and cb.raise_exit.id not in cb.reach([e.id], avoid=[hl[0].id])
+        def _normal_or_raised(src, avoid=()):
+            # what the handler can lead to when its own statements complete: normal edges, and the edges of explicit `raise`
+            seen_, st_ = set(), [src]
+            while st_:
+                x_ = st_.pop()
+                if x_ in seen_ or x_ in avoid:
+                    continue
+                seen_.add(x_)
+                n_ = cb.nodes[x_]
+                for t_, lab_ in cb.succ[x_]:
+                    if lab_ == ("exc",) and not (n_.kind == "stmt" and isinstance(n_.stmt, ast.Raise)):
+                        continue
+                    st_.append(t_)
+            return seen_
+        ok = rz[0].id not in hbody and all(hl[0].id in _normal_or_raised(e.id) and cb.raise_exit.id not in _normal_or_raised(e.id, avoid=[hl[0].id])
                                            for e in cb.nodes if e.kind == "except")
     if ok:
         hs = [e for e in cb.nodes if e.kind == "except"]
